@@ -61,7 +61,7 @@ CHECKS['C20'] = ('translation_validation', 'mirsym on two MIR dumps (std / alloc
                  'First half of the property only (serde half: see not_applicable note in DESIGN §3): decode + rendering for every path at lengths 7/14, get_position on two arbitrary reports, and one tracker step per frame class are compared between the two feature configurations; unsat = no input distinguishes the builds.', '§2 C20')
 
 CHECKS['C05'] = ('model_checking', 'mirsym: closed-form f64 terms of get_position / cpr_nl from symbolic execution of the MIR; z3 QF_FP/QF_BV queries per sub-claim; mpmath enclosures for the NL thresholds',
-                 'Decided: parity rule and panic-freedom for all inputs (bit-vector); the 58 NL transition latitudes (each within 1e-7 deg of the Annex formula) and the zone count in each of the 59 zones for every f64 latitude; latitude in [-90, 270) for every returned position (unsat); existence of returned positions with latitude in (90, 270) and of returned positions for pairs in different NL zones (the two known findings, witnesses replayed natively). Thorough adds longitude in [-180, 180) and the fmod side condition (both unsat within the 900 s cap). Accuracy vs. the true position and re-encoding consistency are outside the claim.', '§2 C05')
+                 'Decided: parity rule and panic-freedom for all inputs (bit-vector); the 58 NL transition latitudes (each within 1e-7 deg of the Annex formula) and the zone count in each of the 59 zones for every f64 latitude; latitude in [-90, 270) for every returned position (unsat); existence of returned positions with latitude in (90, 270) and of returned positions for pairs in different NL zones (the two known findings, witnesses replayed natively). Quick also searches (60 s cap per query, bug hunting only: a timeout is listed as undecided, not a pass of the sub-claim) for a longitude outside [-180, 180) on the sub-space where the latest lon_cpr is one of 0, 1, 32768, 65535, 65536, 65537, 98304, 131071 and the other is any of these, latitudes free. Thorough adds longitude in [-180, 180) for all inputs and the fmod side condition (both unsat within the 900 s cap). Accuracy vs. the true position and re-encoding consistency are outside the claim.', '§2 C05')
 
 CHECKS['C11'] = ('model_checking', 'mirsym: symbolic execution of <Frame as Display>::fmt on every decode path (output = literal/value segments) + z3: branch conditions and printed values equal the per-type template',
                  'For each of the ~46 000 rendering paths (every renderer branch of every frame type) the literal skeleton must be a template alternative and the solver proves the path condition implies that alternative\'s condition and that every printed value term equals the decoded field the template names; non-empty report for every type but DF19.', '§2 C11')
